@@ -239,6 +239,44 @@ func checkC15(c *Ctx) {
 		ra.Check(okl, f.Name(), "orders by primary key "+dir, f.Body.Pos(), "lowest/highest key", name+" does not order by the primary key "+dir+": it no longer returns the record with the "+map[bool]string{false: "lowest", true: "highest"}[wantDesc]+" key")
 	}
 
+	// ---- C15.batch-size ----
+	// FindInBatches may only shrink the requested batch size to a *positive* total limit: a cancelled
+	// (negative) or absent limit must leave the batch size alone.
+	rbs := c.Rule("C15.batch-size", "FindInBatches adjusts the batch size from the user's limit only under limit > 0", 2)
+	{
+		fib := p.MethodDecl(pkgGorm, "DB", "FindInBatches")
+		c.Touch(fib)
+		info := fib.Pkg.TypesInfo
+		bs := paramName(fib, 1)
+		// the variable holding the user's total limit: assigned from *X.Limit
+		total := ""
+		ast.Inspect(fib.Body, func(n ast.Node) bool {
+			if as, ok := n.(*ast.AssignStmt); ok && len(as.Lhs) == 1 && len(as.Rhs) == 1 {
+				if st, ok := unparen(as.Rhs[0]).(*ast.StarExpr); ok && strings.HasSuffix(canon(info, st.X), ".Limit") {
+					if id, ok := as.Lhs[0].(*ast.Ident); ok {
+						total = id.Name
+					}
+				}
+			}
+			return true
+		})
+		n := 0
+		ast.Inspect(fib.Body, func(x ast.Node) bool {
+			as, ok := x.(*ast.AssignStmt)
+			if !ok || len(as.Lhs) != 1 || len(as.Rhs) != 1 {
+				return true
+			}
+			if id, ok := as.Lhs[0].(*ast.Ident); !ok || id.Name != bs {
+				return true
+			}
+			n++
+			facts, live := p.Guards(fib, nil).At(as.Pos())
+			rbs.Check(live && total != "" && facts.Has(fTrue(total+" > 0")), fib.Name(), bs+" = "+exprShort(as.Rhs[0]), as.Pos(), "only for a positive total limit", "the batch size is replaced from the user's limit without a dominating `"+total+" > 0` test: a cancelled (negative) or zero limit turns into the batch size and batches grow beyond the requested size / the loop degenerates", "facts: "+strings.Join(facts.List(), ", "))
+			return true
+		})
+		rbs.Check(n >= 1 && total != "", fib.Name(), "limit-aware batch size", fib.Body.Pos(), "batch size follows a positive user limit", "FindInBatches no longer adapts the batch size to the user's limit; rule lost its anchor")
+	}
+
 	// ---- C15.raise ----
 	rr := c.Rule("C15.raise", "ErrRecordNotFound raised only in gorm.Scan under RowsAffected == 0 && RaiseErrorOnNotFound && Error == nil, after the row loops", 2)
 	errNF := p.Lookup(pkgGorm, "ErrRecordNotFound")
@@ -508,6 +546,30 @@ func checkC20(c *Ctx) {
 			}
 		})
 		rn.Check(len(bad) == 0, name, "no destructive SQL template", fn.Pos(), "reachable from AutoMigrate, additive only", "a function reachable from AutoMigrate carries a destructive SQL template", bad...)
+	}
+
+	// ---- C20.index-last ----
+	// Creating a constraint on an existing table may rebuild the table in a dialect migrator (SQLite),
+	// which drops its indexes: the "create missing indexes" step must not be followed by constraint
+	// creation, otherwise indexes that existed (or were just created) silently disappear.
+	ri := c.Rule("C20.index-last", "ORDER: in AutoMigrate no constraint is created after the missing-index step", 1)
+	{
+		afx := p.MethodDecl(pkgMigrator, "Migrator", "AutoMigrate")
+		for _, f := range append([]*FuncSrc{afx}, p.AllLits(afx)...) {
+			info := f.Pkg.TypesInfo
+			gs := p.Guards(f, nil)
+			for _, call := range callsIn(f) {
+				fn, _ := typeutil.Callee(info, call).(*types.Func)
+				if fn == nil || fn.Name() != "CreateIndex" {
+					continue
+				}
+				c.Touch(f)
+				after := gs.Reaches(call.Pos(), func(n ast.Node) bool {
+					return containsCallNamed(info, n, "CreateConstraint") || containsCallNamed(info, n, "AddColumn") || containsCallNamed(info, n, "MigrateColumn")
+				})
+				ri.Check(!after, f.Name(), "indexes are (re)created last", call.Pos(), "no column/constraint DDL after the index step", "AutoMigrate alters columns or creates constraints after the missing-index step: a dialect that rebuilds the table for such DDL drops the indexes again and nothing recreates them")
+			}
+		}
 	}
 
 	// ---- C20.guarded-add ----
